@@ -247,6 +247,17 @@ def deleteUnminedInputs (s : Store) (tx : Tx) : Store :=
     | some (_ :: _) => { s with pendIns := AMap.erase s.pendIns (i.tx, i.idx) }
     | _ => s) s
 
+/-- removeUnminedInputsOf (removeRawUnminedInputSpender per input): take the tx out of the spender list
+    of each of its inputs; the entry goes away with its last spender, other spenders keep theirs -/
+def removeUnminedInputsOf (s : Store) (tx : Tx) : Store :=
+  tx.ins.foldl (fun s i =>
+    match AMap.get s.pendIns (i.tx, i.idx) with
+    | some (x :: xs) =>
+      let rest := (x :: xs).filter (fun sp => sp ≠ tx.id)
+      if rest.isEmpty then { s with pendIns := AMap.erase s.pendIns (i.tx, i.idx) }
+      else { s with pendIns := AMap.put s.pendIns (i.tx, i.idx) rest }
+    | _ => s) s
+
 def deleteUnminedCredits (s : Store) (tx : Tx) : Store :=
   (List.range tx.outs.length).foldl (fun s i => { s with pendCred := AMap.erase s.pendCred (tx.id, i) }) s
 
@@ -293,7 +304,7 @@ def removeConflict (own : Own) : Nat → Store → Tx → Store
         | some sptx => removeConflict own fuel s sptx
         | none => s) s
       { s with pendCred := AMap.erase s.pendCred (tx.id, i) }) s
-    let s := deleteUnminedInputs s tx
+    let s := removeUnminedInputsOf s tx
     let s := removeUnminedGameHistory own s tx
     { s with pending := AMap.erase s.pending tx.id }
 
